@@ -2898,7 +2898,12 @@ class Transport(threading.Thread, ClosingContextManager):
         # Packet is a count followed by that many key-string to possibly-bytes
         # pairs.
         extensions = {}
-        for _ in range(msg.get_int()):
+        count = msg.get_int()
+        # Each entry is two length-prefixed strings (>= 8 bytes); a count the
+        # packet cannot hold would otherwise make us spin on zero padding.
+        if count > len(msg.get_remainder()) // 8:
+            raise SSHException("EXT_INFO entry count exceeds packet size")
+        for _ in range(count):
             name = msg.get_text()
             value = msg.get_string()
             extensions[name] = value
